@@ -18,7 +18,7 @@
 static int ev_fd = 2;
 static pthread_mutex_t ev_mx = PTHREAD_MUTEX_INITIALIZER;
 static uint64_t ev_n = 0;
-volatile int hx_violations = 0;
+atomic_int hx_violations = 0;
 
 NOINST void ev_open(const char *path) {
 	ev_fd = open(path, O_WRONLY | O_CREAT | O_TRUNC | O_APPEND, 0644);
@@ -68,7 +68,7 @@ NOINST void hx_violation(const char *cls, const char *fmt, ...) {
 	char msg[2048];
 	va_list ap; va_start(ap, fmt); vsnprintf(msg, sizeof msg, fmt, ap); va_end(ap);
 	for (char *c = msg; *c; c++) if (*c == '"' || *c == '\\' || *c == '\n') *c = '\'';
-	__sync_fetch_and_add(&hx_violations, 1);
+	atomic_fetch_add(&hx_violations, 1);
 	ev("\"e\":\"viol\",\"cls\":\"%s\",\"msg\":\"%s\"", cls, msg);
 }
 
@@ -117,7 +117,7 @@ static int nlocks = 0;
 static long edge_cnt[MAXLOCK][MAXLOCK];
 static char edge_wit[MAXLOCK][MAXLOCK][48];
 static long rec_rd_cnt = 0;
-volatile long mon_lock_ops = 0;
+atomic_long mon_lock_ops = 0;
 __thread const char *hx_curcall = "-";
 
 #define WEAKLOCK(n, T) extern T n __attribute__((weak));
@@ -158,7 +158,7 @@ NOINST int mon_lock_index_by_name(const char *name) {
 }
 
 /* ------------------------------------------------------------------ perturbation */
-volatile int mon_perturb = 0;
+atomic_int mon_perturb = 0;
 static uint64_t mon_seed = 1;
 static __thread uint64_t prng = 0;
 NOINST static uint32_t rnd(void) {
@@ -176,8 +176,8 @@ NOINST static void perturb(void) {
 }
 
 /* ------------------------------------------------------------------ lock monitor */
-volatile int mon_armed = 0;
-volatile int mon_contracts_on = 1;
+atomic_int mon_armed = 0;
+atomic_int mon_contracts_on = 1;
 
 NOINST static void die_deadlock(const char *what, int li) {
 	hx_violation("self-deadlock", "%s on %s in call %s (thread %d already holds it)", what, locks[li].name, hx_curcall, hx_tid);
@@ -359,7 +359,7 @@ NOINST void mon_report_edges(void) {
 	}
 	snprintf(buf + k, cap - k, "]");
 	__real_pthread_mutex_unlock(&mon_mx);
-	ev("\"e\":\"edges\",\"edges\":%s,\"rec_rd\":%ld,\"lock_ops\":%ld,\"contract_checks\":%ld,\"contract_viol\":%ld", buf, rec_rd_cnt, mon_lock_ops, mon_contract_checks, mon_contract_viol);
+	ev("\"e\":\"edges\",\"edges\":%s,\"rec_rd\":%ld,\"lock_ops\":%ld,\"contract_checks\":%ld,\"contract_viol\":%ld", buf, rec_rd_cnt, (long)mon_lock_ops, (long)mon_contract_checks, (long)mon_contract_viol);
 	free(buf);
 }
 NOINST int mon_receiver_blocked_by_me(void) {
@@ -451,9 +451,9 @@ NOINST void mon_thread_summary(void) {
 }
 
 /* ------------------------------------------------------------------ virtual time */
-volatile int64_t vt_usec = 0;
+_Atomic int64_t vt_usec = 0;
 static const time_t vt_base = 1700000000;
-NOINST void vt_advance_us(int64_t us) { __sync_fetch_and_add(&vt_usec, us); }
+NOINST void vt_advance_us(int64_t us) { atomic_fetch_add(&vt_usec, us); }
 NOINST time_t __wrap_time(time_t *t) {
 	time_t v = vt_base + (time_t)(vt_usec / 1000000);
 	if (t) *t = v;
@@ -478,7 +478,7 @@ NOINST int __wrap_usleep(unsigned int us) {
 static char logring[LOGRING][256];
 static int logpos = 0;
 static pthread_mutex_t log_mx = PTHREAD_MUTEX_INITIALIZER;
-volatile long log_lines = 0;
+atomic_long log_lines = 0;
 NOINST void __wrap_syslog(int pri, const char *fmt, ...) {
 	char line[1200];
 	va_list ap; va_start(ap, fmt); vsnprintf(line, sizeof line, fmt, ap); va_end(ap);
@@ -507,9 +507,9 @@ NOINST void mon_dump_log(int last) {
 typedef struct { void *fn; const char *name; const char *req[4]; } contract_t;
 extern contract_t hx_contracts[];
 extern int hx_contract_count;
-volatile long mon_contract_checks = 0, mon_contract_viol = 0;
+atomic_long mon_contract_checks = 0, mon_contract_viol = 0;
 static contract_t **chash = NULL; static int chash_n = 0;
-static long contract_hits[256];
+static atomic_long contract_hits[256];
 
 NOINST static void chash_build(void) {
 	chash_n = 1; while (chash_n < hx_contract_count * 4 + 8) chash_n <<= 1;
@@ -529,11 +529,11 @@ NOINST void __cyg_profile_func_enter(void *fn, void *site) {
 	contract_t *c;
 	while ((c = chash[h])) { if (c->fn == fn) break; h = (h + 1) & (chash_n - 1); }
 	if (!c) return;
-	__sync_fetch_and_add(&mon_contract_checks, 1);
-	int idx = (int)(c - hx_contracts); if (idx < 256) __sync_fetch_and_add(&contract_hits[idx], 1);
+	atomic_fetch_add(&mon_contract_checks, 1);
+	int idx = (int)(c - hx_contracts); if (idx < 256) atomic_fetch_add(&contract_hits[idx], 1);
 	for (int i = 0; i < 4 && c->req[i]; i++) {
 		if (!mon_holds(c->req[i], 0)) {
-			__sync_fetch_and_add(&mon_contract_viol, 1);
+			atomic_fetch_add(&mon_contract_viol, 1);
 			char d[512]; mon_held_describe(d, sizeof d);
 			hx_violation("contract", "%s entered without %s (held: [%s]; api call %s)", c->name, c->req[i], d, hx_curcall);
 		}
@@ -544,7 +544,7 @@ NOINST void mon_report_contracts(void) {
 	char buf[8192]; size_t k = 0; int reached = 0;
 	k += snprintf(buf + k, sizeof buf - k, "{");
 	for (int i = 0; i < hx_contract_count && i < 256; i++) if (contract_hits[i] && k + 128 < sizeof buf) {
-		k += snprintf(buf + k, sizeof buf - k, "%s\"%s\":%ld", reached ? "," : "", hx_contracts[i].name, contract_hits[i]);
+		k += snprintf(buf + k, sizeof buf - k, "%s\"%s\":%ld", reached ? "," : "", hx_contracts[i].name, (long)contract_hits[i]);
 		reached++;
 	}
 	snprintf(buf + k, sizeof buf - k, "}");
